@@ -88,6 +88,7 @@ type access struct {
 type lockState struct {
 	writer  int // -1 none
 	readers map[int]int
+	waiting map[int]bool // threads that announced Lock() on a RWMutex and have not acquired it yet
 	vc      vclock
 }
 
@@ -242,7 +243,7 @@ func (s *Scheduler) MapOrder(n int, site int) []int {
 
 func syncKind(k string) bool {
 	switch k {
-	case "lock", "unlock", "rlock", "runlock", "atomic-load", "atomic-store", "atomic-rmw":
+	case "lock", "unlock", "rlock", "runlock", "wlock-announce", "atomic-load", "atomic-store", "atomic-rmw":
 		return true
 	}
 	return false
@@ -257,12 +258,22 @@ func (s *Scheduler) enabled(i int) bool {
 	ev := s.pending[i]
 	switch ev.Kind {
 	case "lock":
-		if l, ok := s.locks[ev.Addr]; ok && (l.writer >= 0 && l.writer != i || len(l.readers) > 0) {
+		// sync.Mutex / RWMutex.Lock are not reentrant: the holder itself blocks too (self-deadlock)
+		if l, ok := s.locks[ev.Addr]; ok && (l.writer >= 0 || len(l.readers) > 0) {
 			return false
 		}
 	case "rlock":
-		if l, ok := s.locks[ev.Addr]; ok && l.writer >= 0 && l.writer != i {
-			return false
+		// a writer that has announced itself keeps later readers out (sync.RWMutex: "a blocked Lock call
+		// excludes new readers"), also a reader that already holds the lock: recursive read locking deadlocks
+		if l, ok := s.locks[ev.Addr]; ok {
+			if l.writer >= 0 {
+				return false
+			}
+			for w := range l.waiting {
+				if w != i {
+					return false
+				}
+			}
 		}
 	}
 	return true
@@ -290,7 +301,7 @@ func (s *Scheduler) apply(i int) {
 	lock := func() *lockState {
 		l, ok := s.locks[ev.Addr]
 		if !ok {
-			l = &lockState{writer: -1, readers: map[int]int{}, vc: make(vclock, s.n)}
+			l = &lockState{writer: -1, readers: map[int]int{}, waiting: map[int]bool{}, vc: make(vclock, s.n)}
 			s.locks[ev.Addr] = l
 		}
 		return l
@@ -354,9 +365,12 @@ func (s *Scheduler) apply(i int) {
 			rs = append(rs, access{ev, me.clone()})
 		}
 		s.greads[ev.Addr] = rs
+	case "wlock-announce":
+		lock().waiting[i] = true
 	case "lock":
 		l := lock()
 		l.writer = i
+		delete(l.waiting, i)
 		me.join(l.vc)
 	case "rlock":
 		l := lock()
